@@ -2,7 +2,10 @@
 
    Written after the critical sections of iv_work.c (DESIGN.md Appendix A.7).  One pool,
    its owner thread `own`, the pool threads and helper threads created through
-   iv_thread_create by the owner.  Labels abstract the log of harness/ivmt.c:
+   iv_thread_create by the owner.  A running helper thread may submit work to the pool as a FOREIGN
+   submitter (iv_work_pool_submit_continuation by a thread that is neither the owner nor a thread of this
+   pool, e.g. a worker of another pool of the same owner: called_from_owner_thread = 0, so an idle thread
+   is kicked, else the owner's thread_needed event is posted).  Labels abstract the log of harness/ivmt.c:
 
      a wc<p>=<m>             LCreate t m        pe                     LEnd t
      a ws / a wS             LSubmit t i        a wl<i>                LLocal t i
@@ -394,6 +397,22 @@ Definition step_in (s : state) (t : nat) (l : label) : option state :=
   | _ => None
   end.
 
+(* ---------- foreign submitters ---------- *)
+(* a thread made by iv_thread_create from application code of the owner that is still running its start routine *)
+Definition helper_runs (s : state) (t : nat) : bool :=
+  match tk (th s t), tp (th s t) with KHelper, TRun => true | _, _ => false end.
+(* the thread is not inside a submit / put call *)
+Definition act_free (s : state) (t : nat) : bool := match act s t with ANone => true | _ => false end.
+Definition is_work (pc : wpc) : bool := match pc with WWork _ _ => true | _ => false end.
+(* a submitter that is neither the owner nor a thread of this pool inside a work function: for this pool a
+   FOREIGN submitter (iv_work_pool_submit_continuation from a worker of another pool, from any other thread) *)
+Definition foreign (s : state) (t : nat) : bool := negb (Nat.eqb t (own s)) && negb (is_work (wpc_of s t)).
+(* iv_work_submit_pool as called by thread t.  API contract of a foreign submitter: the pool has not been put
+   (checked here, under the lock: no put before or concurrent with the submission -- a pool thread that submits
+   a continuation keeps the pool alive itself, a foreign thread does not) *)
+Definition cs_submit_g (s : state) (p : pool) (t i : nat) : option (pool * option nat * list eff) :=
+  if foreign s t && pshut p then None else cs_submit p (Nat.eqb t (own s)) i.
+
 (* ---------- taking the pool lock: the whole critical section ---------- *)
 Definition enter (t : nat) (e : list eff) (p' : pool) (s : state) : state :=
   set_lock (Some t) (set_todo e (set_pl (PLive p') s)).
@@ -403,15 +422,17 @@ Definition st_lock (s : state) (t : nat) : option state :=
   | PLive p, None =>
     match act s t with
     | ASubmit i SBefore =>
-      match cs_submit p (Nat.eqb t (own s)) i with
+      match cs_submit_g s p t i with
       | None => None
       | Some (p', kw, e) =>
         let s1 := enter t e p' (set_act1 t (ASubmit i SIn) s) in
         Some (match kw with Some w => set_kicked w true s1 | None => s1 end)
       end
     | APut SBefore =>
-      (* iv_work_pool_put *)
-      if Nat.eqb t (own s) then
+      (* iv_work_pool_put.  API contract: not while work submitted by a foreign thread is queued and the pool has
+         no thread (iv_work_pool_put / iv_work_event look at started_threads and work_done only: the pool would be
+         freed with the item still queued, before the owner has served thread_needed) *)
+      if Nat.eqb t (own s) && (nilb (pitems p) || (0 <? pstarted p)) then
         if pstarted p =? 0 then Some (enter t [] (p_set_shut true p) (set_act1 t (APut SPost) s))
         else Some (enter t (map FPostW (pidle p)) (p_set_shut true p) (set_act1 t (APut SIn) s))
       else None
@@ -453,12 +474,10 @@ Definition st_lock (s : state) (t : nat) : option state :=
 Definition own_may_act (s : state) (t : nat) : bool :=
   Nat.eqb t (own s) && oact_ok s && negb (mph_eqb (omain s) MAfter).
 
-Definition is_work (pc : wpc) : bool := match pc with WWork _ _ => true | _ => false end.
-
 Definition st_submit (s : state) (t i : nat) : option state :=
   match pl s, items s i, act s t with
   | PLive p, IIdle, ANone =>
-    if negb (pshut p) && (own_may_act s t || is_work (wpc_of s t)) then
+    if negb (pshut p) && (own_may_act s t || is_work (wpc_of s t) || helper_runs s t) then
       Some (set_item i IQ (set_act1 t (ASubmit i SBefore) s))
     else None
   | _, _, _ => None
@@ -481,7 +500,7 @@ Definition st_evo (s : state) (t : nat) : option state :=
     let r := th s t in
     let ok := match tk r, tp r with
               | KWorker, TRun => match wpc_of s t with WDead => true | _ => false end
-              | KHelper, TRun | KHelper, TExiting => true
+              | KHelper, TRun | KHelper, TExiting => act_free s t    (* not from inside a submit call *)
               | _, _ => false
               end in
     if ok then Some (post_o (set_tp t TPosted s) t (EvDead t)) else None.
